@@ -24,6 +24,73 @@ TRUSTED = [
 
 ANSI = re.compile(r"\x1b\[[0-9;]*m")
 
+def _hdr(link, prio, fmt, size, fee=0x502A):
+    return (bytes([7, 64]) + struct.pack("<H", fee) + bytes([prio, 32, 0, 0]) + struct.pack("<HH", size, size) + bytes([link, 0, 24, 0]) + bytes(8) +
+            bytes([fmt, 0, 0, 0, 0, 0, 0, 0]) + bytes([3, 106, 0, 0, 0, 0, 0, 0]) + bytes(24))
+
+
+def forced_inputs(rng):
+    """directed inputs for the forced-schedule stream: (name, bytes, modes, is_layout_collision)"""
+    res = []
+    # (a) finding F18: link 0's header says data format 0 (16-byte slots), its payload is laid out in 10-byte words: word 600 is
+    #     reported at 64 + 600*16 = 64 + 9600, the start of the next packet, whose RDH (link 1) is faulty itself
+    L = 9600
+    payload = b"".join(bytes([1 + (i % 200)] * 9 + [0x3D]) for i in range(L // 10))
+    res.append(("layout-collision", _hdr(0, 0, 0, 64 + L) + payload + _hdr(1, 1, 2, 64), [["check", "sanity", "its"], ["check", "all", "its", "-m"]], True))
+    # (b) the same shape with a payload laid out as the header says (format 2): no collision possible
+    res.append(("layout-agrees", _hdr(0, 0, 2, 64 + L) + payload + _hdr(1, 1, 2, 64), [["check", "sanity", "its"]], False))
+    # (c) the input ends inside the payload of its last packet whose RDH is faulty as well; two links with faulty RDHs before it
+    words = b"".join(bytes([3] * 9 + [0x3D]) for _ in range(40))
+    body = _hdr(0, 0, 2, 64 + 400) + words + _hdr(1, 1, 2, 64 + 400) + words + _hdr(0, 1, 2, 64 + 400) + words + _hdr(1, 1, 2, 64 + 400) + words
+    for cut in (len(body) - 1, len(body) - 399, len(body) - 200):
+        res.append(("cut-in-last-payload-%d" % (len(body) - cut), body[:cut], [["check", "all", "its"], ["check", "sanity", "its", "-m"]], False))
+    # (d) cut inside the last RDH
+    res.append(("cut-in-last-rdh", body[:3 * 464 + 30], [["check", "all", "its"]], False))
+    # (e) many links, every RDH faulty twice (stop bit 2: [E10] + [E11] at one offset), interleaved
+    n = 8
+    pk = b"".join(_hdr(l, 0, 2, 64)[:38] + b"\x02" + _hdr(l, 0, 2, 64)[39:] for _r in range(6) for l in range(n))
+    res.append(("twelve-faulty-links", _hdr(0, 0, 2, 64) + pk, [["check", "all"], ["check", "all", "its-stave"]], False))
+    # (f) ONE link id, six FEE ids (stave mode: six validators), every RDH faulty
+    fees = [0x0001, 0x1005, 0x2007, 0x3002, 0x4003, 0x5004]
+    pk1 = b"".join(_hdr(3, 0, 2, 64, fee=f)[:38] + b"\x02" + _hdr(3, 0, 2, 64, fee=f)[39:] for _r in range(6) for f in fees)
+    res.append(("one-link-six-staves", _hdr(3, 0, 2, 64, fee=fees[0]) + pk1, [["check", "all", "its-stave"], ["check", "all", "its-stave", "-m"]], False))
+    return res
+
+
+FORCED = [None, "0:d.spawn=100000", "0:m.droprecv=200000", "0:a.recv=200000", "0:v.recv=30000", "0:d.send=20000", "0:c.recv=300",
+          "7:v.recv=5000,d.send=2000", "0:m.forwarded=200000"]
+
+
+def err_lines(se):
+    return [l for l in ANSI.sub("", se.decode("utf8", "replace")).split("\n") if l.startswith("ERROR ")]
+
+
+def collision_only(data, a, b):
+    """do two stderr message sequences differ ONLY in the order of messages that share an offset at which a payload-word message of one
+    packet meets the RDH of another packet (finding F18)?  `data` is the input (well-framed)."""
+    if sorted(a) != sorted(b):
+        return False
+    off = lambda l: int(l.split()[1].rstrip(":"), 16)
+    if [off(l) for l in a] != [off(l) for l in b]:
+        return False
+    starts = set()
+    o = 0
+    while o + 64 <= len(data):
+        starts.add(o)
+        o += struct.unpack_from("<H", data, o + 8)[0] or 64
+    groups = {}
+    for la, lb in zip(a, b):
+        if la != lb:
+            groups.setdefault(off(la), []).append(la)
+    for o, ls in groups.items():
+        every = [l for l in a if off(l) == o]
+        has_rdh = any("[E10]" in l or "[E11]" in l for l in every)
+        has_word = any(("[E10]" not in l and "[E11]" not in l) for l in every)
+        if not (o in starts and has_rdh and has_word):
+            return False
+    return True
+
+
 
 def gen_streams(rng, big=False, boundary=False):
     """per-sender streams satisfying streams_ok: main (reader stats), analysis, validators.
@@ -36,8 +103,11 @@ def gen_streams(rng, big=False, boundary=False):
     for i in range(nval):
         layer, stave = rng.randrange(7), rng.randrange(48)
         fees.append((layer << 12) | stave)
+    # a third of the families: all validators behind ONE link id (stave mode: one validator per FEE id) -- the number of links says
+    # nothing about the number of senders (seed C05-F)
+    one_link = rng.random() < 0.33
     for i in range(nval):
-        main += ["L%d" % i, "F%d" % fees[i]]
+        main += (["L%d" % i] if (not one_link or i == 0) else []) + ["F%d" % fees[i]]
     for _ in range(rng.randrange(1, 4)):
         main.append(rng.choice(["S%d" % rng.randrange(1000), "R%d" % rng.randrange(100), "P%d" % rng.randrange(100000)]))
     rng.shuffle(main[4:])
@@ -242,9 +312,73 @@ def run(tier, seed):
                                             "what": "repeated runs of the same command on the same input differ in " + what})
     shutil.rmtree(tmp, ignore_errors=True)
     chk.add_stream("cli-repeated-runs", len(jobs), d2, [], distribution={"inputs": ninputs, "repetitions": nrep})
+
+    # ------------------------------------------------------------ stream 3: the binary under FORCED schedules on directed inputs
+    tmp3 = core.scratch_dir("c05f")
+    fjobs = []
+    for name, data, modes, collide in forced_inputs(rng):
+        path = os.path.join(tmp3, name + ".raw")
+        open(path, "wb").write(data)
+        for mode in modes:
+            for k, sched in enumerate(FORCED if deep else FORCED[:6]):
+                fjobs.append({"name": name, "mode": mode, "sched": sched, "k": k, "path": path, "data": data, "collide": collide})
+
+    def fwork(j):
+        sp = os.path.join(tmp3, "st_%s_%d_%s.json" % (j["name"], j["k"], "_".join(j["mode"])))
+        env = {"FASTPASTA_VERIF_SCHED": j["sched"]} if j["sched"] else None
+        rc, so, se, dt = core.run_cli([j["path"]] + j["mode"] + ["-S", sp, "-D", "json", "-E", "7"], timeout=180, env_extra=env)
+        st = open(sp, "rb").read() if os.path.exists(sp) else b""
+        if os.path.exists(sp):
+            os.remove(sp)
+        rep = "\n".join(l for l in ANSI.sub("", so.decode("utf8", "replace")).split("\n") if "Processed in" not in l)
+        return rc, st, err_lines(se), rep
+    fres = core.par_map(fwork, fjobs)
+    fgroups = {}
+    for j, r in zip(fjobs, fres):
+        fgroups.setdefault((j["name"], tuple(j["mode"])), []).append((j, r))
+    d3 = set()
+    for (name, mode), lst in fgroups.items():
+        j0, (rc0, st0, e0, rp0) = lst[0]
+        d3.add((name, " ".join(mode), len(e0) > 0))
+        for j, (rc, st, errs, rp) in lst[1:]:
+            what = None
+            if rc != rc0:
+                what = "exit status"
+            elif rp != rp0:
+                what = "report"
+            elif "-m" not in mode and errs != e0:
+                what = "error messages / their order"
+            elif st != st0:
+                what = "statistics file"
+            if what is None:
+                continue
+            cls = None
+            if j["collide"] and rc == rc0:
+                # the statistics file holds the same messages: compare its reported_errors too
+                try:
+                    ra = json.loads(st0)["error_stats"]["reported_errors"]
+                    rb = json.loads(st)["error_stats"]["reported_errors"]
+                    la = ["ERROR " + x for x in ra]
+                    lb = ["ERROR " + x for x in rb]
+                except Exception:
+                    la, lb = e0, errs
+                if collision_only(j["data"], la, lb) and ("-m" in mode or collision_only(j["data"], e0, errs)):
+                    cls = "F18-two-senders-one-offset-under-layout-mismatch"
+            chk.spec_violations.append({"stream": "cli-forced-schedules", "input": name, "mode": " ".join(mode), "schedule_A": j0["sched"],
+                                        "schedule_B": j["sched"], "differs": what, "class": cls,
+                                        "messages_A": [l[:90] for l in e0 if l not in errs][:6] or [l[:90] for l, m in zip(e0, errs) if l != m][:6],
+                                        "messages_B": [l[:90] for l, m in zip(errs, e0) if l != m][:6],
+                                        "input_hex_head": j["data"][:96].hex(), "input_len": len(j["data"]),
+                                        "what": "the same command on the same input under two forced schedules (FASTPASTA_VERIF_SCHED) differs in " + what})
+            break
+    shutil.rmtree(tmp3, ignore_errors=True)
+    chk.add_stream("cli-forced-schedules", len(fjobs), d3, [], distribution={"inputs": len(set(j["name"] for j in fjobs)), "schedules": len(FORCED if deep else FORCED[:6])})
     chk.cov["rule"] = ("collector-interleavings: random families of per-sender streams satisfying streams_ok (reader/main, analysis, 2-5 validators "
                        "with repeated offsets), each under sequential / reverse / random bursty interleavings, muted and not, through the real "
                        "StatsCollector; the serialised statistics must be byte-identical across interleavings and equal to the model's. "
                        "cli-repeated-runs: multi-link corrupted inputs (incl. [E10]+[E11] pairs at one offset) run 10 (24) times concurrently, each repetition under its own schedule perturbation (hook H2), "
-                       "per mode incl. -m; statistics file bytes, stderr lines, report and exit status compared. distinct = class tuples")
+                       "per mode incl. -m; statistics file bytes, stderr lines, report and exit status compared. "
+                       "cli-forced-schedules: directed inputs (layout collision of finding F18, the same with an agreeing layout, inputs cut inside the last payload / RDH with faulty RDHs, "
+                       "many links with two messages per offset) each under 6 (9) FORCED schedules (fixed sleeps at d.spawn / m.droprecv / a.recv / v.recv / d.send / c.recv through hook H2): every observable must be identical; "
+                       "a difference that is ONLY the order of messages sharing an offset at which a payload-word message of one packet meets the RDH of another packet is finding F18. distinct = class tuples")
     return core.finish(chk, TRUSTED)
